@@ -293,6 +293,8 @@ def reset_globals():
     cr.GLOBAL_COUNTS_STORAGE.clear()
     cr.GLOBAL_RARE_VALUE_STORAGE.clear()
     cr.GLOBAL_PRIOR_COMB_COUNTS.clear()
+    if hasattr(cr, "GLOBAL_PRIOR_FEATURE_COMB_COUNTS"):
+        cr.GLOBAL_PRIOR_FEATURE_COMB_COUNTS.clear()
     cr.IGNORED_VALUES.clear()
     random.seed(a=123, version=2)          # as at import of core_ranking
     import numpy as np
@@ -391,6 +393,17 @@ def run_case(case, cdir, keep=False):
             obs["consumed_error"] = "%s: %s" % (type(e).__name__, e)
         obs["ckpt_after"] = eim_ret.get("ckpt_after")
     obs["pairwise"] = read_table(os.path.join(out_dir, "pairwise_ranks.tsv"))
+    # the sampler's export: combination_estimation_counts.json as the task wrote it, and the counter the function returned
+    try:
+        pj = os.path.join(out_dir, "combination_estimation_counts.json")
+        obs["comb_counts_json"] = json.load(open(pj)) if os.path.exists(pj) else None
+    except Exception as e:
+        obs["comb_counts_json_error"] = "%s: %s" % (type(e).__name__, e)
+    if "ret" in eim_ret:
+        try:
+            obs["comb_counts_ret"] = [[list(k) if isinstance(k, tuple) else k, int(v)] for k, v in eim_ret["ret"][7].items()]
+        except Exception as e:
+            obs["comb_counts_ret_error"] = "%s: %s" % (type(e).__name__, e)
     obs["ckpt_left"] = os.path.exists(ckpt)
     obs["schedules"] = getattr(pool, "schedules", [])[:64]
     os.chdir(os.path.dirname(cdir))
